@@ -41,6 +41,8 @@ impl<'a> ChainedRange<'a> {
     #[verifier::prophetic]
     pub open spec fn wf(&self) -> bool {
         &&& self.items().len() == self.ids().len()
+        // size assumption (A-redb): the number of rows of a table fits `usize` (redb counts rows in u64)
+        &&& self.ids().len() <= usize::MAX
         &&& 0 <= self.first_len() <= self.ids().len()
         &&& (forall|i: int| 0 <= i < self.ids().len() ==> entry_is_row(#[trigger] self.items()[i], self.table(), self.ids()[i]))
     }
